@@ -1120,10 +1120,10 @@ class Context:
 
             # Parse and compile
             try:
-                parser = Parser(source)
-                ast = parser.parse()
-                compiler = Compiler()
-                bytecode_module = compiler.compile(ast)
+                running = self._current_vm
+                bytecode_module = self._compile_source(
+                    source, running.start_time if running is not None else None
+                )
 
                 # The result should be a function expression wrapped in a program
                 # We need to extract the function from the bytecode
@@ -1271,10 +1271,10 @@ class Context:
                 return code
 
             try:
-                parser = Parser(code)
-                ast = parser.parse()
-                compiler = Compiler()
-                bytecode_module = compiler.compile(ast)
+                running = ctx._current_vm
+                bytecode_module = ctx._compile_source(
+                    code, running.start_time if running is not None else None
+                )
 
                 vm = VM(ctx.memory_limit, ctx.time_limit)
                 vm.globals = ctx._globals
@@ -1397,16 +1397,13 @@ class Context:
             MemoryLimitError: If memory limit is exceeded
             TimeLimitError: If time limit is exceeded
         """
-        # Parse the code
-        parser = Parser(code)
-        ast = parser.parse()
-
-        # Compile to bytecode
-        compiler = Compiler()
-        compiled = compiler.compile(ast)
+        # Parse and compile: part of the evaluation the time limit is for
+        started = time.monotonic()
+        compiled = self._compile_source(code, started)
 
         # Execute
         vm = VM(memory_limit=self.memory_limit, time_limit=self.time_limit)
+        vm.start_time = started
 
         # Share globals with VM (don't copy - allows nested eval to modify globals)
         vm.globals = self._globals
@@ -1419,6 +1416,27 @@ class Context:
             self._current_vm = None
 
         return self._to_python(result)
+
+    def _compile_source(self, source: str, started: Optional[float]) -> Any:
+        """Parse and compile a program.
+
+        `started` is when the evaluation that asked for it began: the parser
+        gives up with TimeLimitError once the time limit has passed since then.
+        Source nested more deeply than the host's stack allows (the parser and
+        the compiler are recursive) is refused as a syntax error.
+        """
+        poll = None
+        if self.time_limit is not None and started is not None:
+            limit = self.time_limit
+
+            def poll() -> bool:
+                return time.monotonic() - started > limit
+
+        try:
+            ast = Parser(source, poll).parse()
+            return Compiler().compile(ast)
+        except RecursionError:
+            raise JSSyntaxError("Program is nested too deeply")
 
     def _call_function(self, func: JSFunction, args: list) -> Any:
         """Call a JavaScript function with the given arguments.
